@@ -376,7 +376,8 @@ class Gen:
                 n0 = order[0] if order else None
                 if n0 is not None:
                     vals = dict(vals)
-                    vals[n0] = 99 if not isinstance(vals[n0], list) else vals[n0][:1]
+                    t0 = dict(u["params"]).get(n0, "bool")
+                    vals[n0] = (2 ** (width(t0) or 3)) if not isinstance(vals[n0], list) else vals[n0][:1]
         a = {"target": u["id"], "values": vals, "order": order}
         if fault:
             a["fault"] = fault
@@ -503,7 +504,7 @@ def run_segment(plan, ctx, detail=False, table=None):
         probes[k] = probes.get(k, 0) + 1
 
     def viol(oracle, op, changed, **kw):
-        v = {"oracle": oracle, "op": op["id"], "op_kind": "bind", "role": byid[op["a"]["target"]]["a"]["tmpl"].split(":")[0] if op["kind"] == "bind" else "", "changed": sorted(changed)}
+        v = {"oracle": oracle, "op": op["id"], "op_kind": "bind", "role": "", "changed": sorted(changed), "template": byid[op["a"]["target"]]["a"]["tmpl"] if op["kind"] == "bind" else ""}
         v.update(kw)
         return v
 
@@ -601,6 +602,21 @@ def run_segment(plan, ctx, detail=False, table=None):
                 probe("notebook_path")
             for _, t in ua["params"]:
                 probe("param_type:" + re.sub(r"\d+", "n", t))
+            def compiled_table(kind, src_fn):
+                sk = (kind, ua["src"], canon(a["values"]) if kind != "typed" else "", ua["opt"])
+                if sk not in spec_memo:
+                    try:
+                        sq = qlassf(src_fn(), defs=[objs[i] for i in ua["defs"]], to_compile=False, bool_optimizer=_opt(ua["opt"]))
+                        bits = sum(len(x.bitvec) for x in sq.args)
+                        t_ = table_of(sq) if bits <= (MAX_TABLE_BITS if kind != "typed" else 12) else None
+                        if t_ is None and kind == "typed" and bits <= 12:
+                            hdr_ = list(sq.truth_table_header())
+                            t_ = (hdr_, [[(True if str(c) == "True" else False if str(c) == "False" else str(c)) for c in row] for row in sq.truth_table()])
+                        spec_memo[sk] = (t_, "ok" if t_ is not None else "too_big")
+                    except Exception as e:
+                        spec_memo[sk] = (None, "rejected:" + type(e).__name__)
+                return spec_memo[sk]
+
             if outcome == "faulted:interrupt":
                 after_failed.add(a["target"])
                 records.append(rec)
@@ -609,9 +625,15 @@ def run_segment(plan, ctx, detail=False, table=None):
                 probe("bind_rejected:" + ua["tmpl"].split(":")[0])
                 rec["fp"] = None
                 if key in first_fp and first_fp[key] != outcome and "fault" not in a:
-                    violation = viol("B4", op, [first_fp[key] + "->" + outcome], msg=rec.get("msg"))
+                    violation = viol("B4", op, [(first_fp[key] if str(first_fp[key]).startswith("rejected") else "ok") + "->" + outcome], msg=rec.get("msg"))
                 first_fp.setdefault(key, outcome)
                 records.append(rec)
+                if violation is None and "fault" not in a:
+                    # rejection is allowed only for what cannot be specialised by hand either
+                    inj_tb, inj_state = compiled_table("inj", lambda: injected(ua["src"], a["values"]))
+                    probe("rejected_bind_inj_" + inj_state.split(":")[0])
+                    if inj_state in ("ok", "too_big"):
+                        violation = viol("B0", op, ["bind rejects a program that is accepted with the assignments prepended by hand: " + outcome], msg=rec.get("msg"), values=a["values"], order=a["order"])
             else:
                 fp = F.fp_any(res)
                 rec["fp"] = digest(fp)
@@ -633,21 +655,6 @@ def run_segment(plan, ctx, detail=False, table=None):
                         violation = viol("B4", op, ["truth table differs from an earlier bind to the same values"])
                     sem_table.setdefault(skey, rec["table"])
                     # B2: the prepended-assignment form built by the harness, compiled the ordinary way
-                    def compiled_table(kind, src_fn):
-                        sk = (kind, ua["src"], canon(a["values"]) if kind != "typed" else "", ua["opt"])
-                        if sk not in spec_memo:
-                            try:
-                                sq = qlassf(src_fn(), defs=[objs[i] for i in ua["defs"]], to_compile=False, bool_optimizer=_opt(ua["opt"]))
-                                bits = sum(len(x.bitvec) for x in sq.args)
-                                t_ = table_of(sq) if bits <= (MAX_TABLE_BITS if kind != "typed" else 12) else None
-                                if t_ is None and kind == "typed" and bits <= 12:
-                                    hdr_ = list(sq.truth_table_header())
-                                    t_ = (hdr_, [[(True if str(c) == "True" else False if str(c) == "False" else str(c)) for c in row] for row in sq.truth_table()])
-                                spec_memo[sk] = (t_, "ok" if t_ is not None else "too_big")
-                            except Exception as e:
-                                spec_memo[sk] = (None, "rejected:" + type(e).__name__)
-                        return spec_memo[sk]
-
                     inj_tb, inj_state = compiled_table("inj", lambda: injected(ua["src"], a["values"]))
                     probe("inj_" + inj_state.split(":")[0])
                     if inj_tb is not None and not (inj_tb[0] == hdr and inj_tb[1] == rows):
